@@ -38,6 +38,15 @@ class C01(PropBase):
         mods = [m["name"] for m in world["modules"]]
         env = self.base_env(rng, fault_free=not sw)
         roots = gen.root_types(view, rng, cfg, rng.randint(1, 4))
+        if rng.random() < 0.25:
+            # one text, several temporal parsers: unions (and classes) in which the rightful member is
+            # reached only after another temporal member refused the wire form
+            fam = [{"k": k} for k in rng.sample(["date", "dt", "time", "td"], rng.randint(2, 3))]
+            if not any(m["k"] == "td" for m in fam):
+                fam[rng.randrange(len(fam))] = {"k": "td"}
+            u = {"k": "union", "sp": rng.choice(["pipe", "typing"]), "a": fam}
+            roots.append(rng.choice([u, {"k": "list", "a": u}, {"k": "dict", "a": [{"k": "str"}, u]}, {"k": "tuple", "a": [{"k": fam[0]["k"]}, {"k": "td"}, u]}]))
+            roots.append(roots[-1])
         steps = []
         n = rng.randint(1, 14 if tier == "quick" else 40)
         fk = [k for k in sw if k in ("clear", "shrink", "zone", "clock", "clear_typing")]
